@@ -183,8 +183,15 @@ func (s *Store) handleMergeCommand(merge *pb.MergeCommand) error {
 	}
 	updated := parentMeta
 	updated.Epoch.Version++
-	if len(sourceMeta.EndKey) == 0 || bytes.Compare(sourceMeta.EndKey, updated.EndKey) > 0 {
+	switch {
+	case len(parentMeta.EndKey) > 0 && bytes.Equal(parentMeta.EndKey, sourceMeta.StartKey):
+		// Source is the right neighbour: the target grows at its end.
 		updated.EndKey = append([]byte(nil), sourceMeta.EndKey...)
+	case len(sourceMeta.EndKey) > 0 && bytes.Equal(sourceMeta.EndKey, parentMeta.StartKey):
+		// Source is the left neighbour: the target grows at its start.
+		updated.StartKey = append([]byte(nil), sourceMeta.StartKey...)
+	default:
+		return fmt.Errorf("raftstore: regions %d and %d are not adjacent", parentMeta.ID, sourceMeta.ID)
 	}
 	if err := s.UpdateRegion(updated); err != nil {
 		return err
